@@ -217,6 +217,28 @@ func registerIntrinsics2(in *Interp) {
 			return in.callSSA(fn, a, nil, fr)
 		}
 	}
+	// float rendering (ryu) is not encodable within reach: a symbolic float
+	// gives a placeholder; concrete floats run strconv from source
+	for _, n := range []string{"strconv.FormatFloat", "strconv.AppendFloat"} {
+		name := n
+		r[name] = func(in *Interp, fr *Frame, a []V) V {
+			fi := 0
+			if name == "strconv.AppendFloat" {
+				fi = 1
+			}
+			if t, ok := a[fi].(*Term); ok && t.Op != OpConst {
+				if fi == 1 {
+					return in.appendOp(a[0].(SliceV), StrV{S: "<float>"}, types.NewSlice(types.Typ[types.Uint8]))
+				}
+				return StrV{S: "<float>"}
+			}
+			fn := in.Prog.ImportedPackage("strconv").Func(strings.TrimPrefix(name, "strconv."))
+			saved := in.intr[name]
+			delete(in.intr, name)
+			defer func() { in.intr[name] = saved }()
+			return in.callSSA(fn, a, nil, fr)
+		}
+	}
 	r["fmt.Sprint"] = sprint(false)
 	r["fmt.Sprintln"] = sprint(true)
 	outN := func(in *Interp, fr *Frame, a []V) V {
